@@ -431,6 +431,17 @@ pub fn binding<S: MlDsa>(seed: u64, nbase: usize, out: &mut Out) {
         }
         // every other mode / pre-hash function on the same (M, ctx)
         for m2 in MODES { if m2 != mode { let _ = w.verify(hp, &m, &ctx, m2, &sig); } }
+        // confusion between the two interfaces: the FORMATTED message M' of this tuple offered as a plain message (empty and
+        // original context, every mode) - a verifier with a fallback to the bare internal format accepts exactly this - and
+        // the plain message offered to the internal interface as if it were M'
+        {
+            let mp = format_msg(mode, &ctx, &m);
+            for m2 in MODES { let _ = w.verify(hp, &mp, b"", m2, &sig); }
+            let _ = w.verify(hp, &mp, &ctx, mode, &sig);
+            let _ = w.verify_internal(hp, &m, &sig);
+            let _ = w.verify_internal(hp, &mp, &sig);          // and the right use of the internal interface accepts
+            if mp.len() > 2 { let _ = w.verify_internal(hp, &mp[2..], &sig); }
+        }
         // crafted messages that mimic the other mode's formatted input
         for ph in ["SHA256", "SHA512", "SHAKE128"] {
             let mimic: Vec<u8> = prehash(ph, &m);
